@@ -45,50 +45,117 @@ def _unref(t):
     return t
 
 
+_PREDS = {
+    "is_ascii_digit": lambda c: ord("0") <= c <= ord("9"),
+    "is_numeric": lambda c: chr(c).isnumeric(),
+    "is_ascii_alphabetic": lambda c: chr(c).isascii() and chr(c).isalpha(),
+    "is_alphabetic": lambda c: chr(c).isalpha(),
+    "is_ascii_alphanumeric": lambda c: chr(c).isascii() and chr(c).isalnum(),
+    "is_alphanumeric": lambda c: chr(c).isalnum(),
+    "is_whitespace": lambda c: chr(c).isspace(),
+    "is_ascii_whitespace": lambda c: chr(c) in " \t\n\r\x0c",
+    "is_ascii_punctuation": lambda c: chr(c).isascii() and not chr(c).isalnum() and not chr(c).isspace() and c > 32,
+}
+
+
 def _char_test(c):
-    """(item term, op, code point) when the condition compares something with a character constant."""
+    """(item term, test) when the condition asks something about one character: test(code point) -> bool."""
     c = strip(c)
     if c[0] == "binop" and c[1] in _CMP:
         a, b = _unref(c[2]), _unref(c[3])
         kb, ka = _char_const(b), _char_const(a)
         if kb is not None and ka is None:
-            return a, c[1], kb
+            return a, (lambda code, op=c[1], k=kb: _CMP[op](code, k))
         if ka is not None and kb is None:
-            flip = {"Lt": "Gt", "Gt": "Lt", "Le": "Ge", "Ge": "Le"}.get(c[1], c[1])
-            return b, flip, ka
+            return b, (lambda code, op=c[1], k=ka: _CMP[op](k, code))
     if c[0] == "call" and (c[1].endswith("::eq") or c[1].endswith("::ne")) and len(c[2]) == 2:
         a, b = _unref(c[2][0]), _unref(c[2][1])
         kb, ka = _char_const(b), _char_const(a)
-        op = "Eq" if c[1].endswith("::eq") else "Ne"
+        eq = c[1].endswith("::eq")
         if kb is not None and ka is None:
-            return a, op, kb
+            return a, (lambda code, k=kb, eq=eq: (code == k) == eq)
         if ka is not None and kb is None:
-            return b, op, ka
+            return b, (lambda code, k=ka, eq=eq: (code == k) == eq)
+    if c[0] == "call" and len(c[2]) >= 1:
+        last = c[1].split("::")[-1]
+        if last in _PREDS and ("char" in c[1]):
+            return _unref(c[2][0]), _PREDS[last]
+        if last == "is_digit" and "char" in c[1] and len(c[2]) == 2:
+            return _unref(c[2][0]), _PREDS["is_ascii_digit"]
     return None
 
 
-def _flag_locals(G, t):
-    """Named bool locals handed (through copies) as the flag arguments of one constructor call."""
+def _enum_index(t):
+    """k when t is the index component of the k-th item of an `enumerate()` iteration (k = earlier visits of the block
+    of that `next()` call on this path)."""
+    t = _unref(t)
+    if isinstance(t, tuple) and t and t[0] == "field" and t[2] == "0":
+        x = strip(t[1])
+        if x[0] == "field" and x[2] == "Some.0":
+            c = strip(x[1])
+            if c[0] == "call" and c[1].endswith("::next") and "Enumerate" in c[1] and len(c) >= 4 and isinstance(c[3], tuple):
+                return c[3][1]
+    return None
+
+
+def _index_test(c):
+    """Truth value of a comparison between an enumerate() index and an integer constant, when it can be told."""
+    c = strip(c)
+    if c[0] == "binop" and c[1] in _CMP:
+        for x, y, flip in ((c[2], c[3], False), (c[3], c[2], True)):
+            k = _enum_index(x)
+            yy = strip(y)
+            if k is not None and isinstance(yy, tuple) and yy[0] == "const" and isinstance(yy[3], int) and yy[1] != "char":
+                return _CMP[c[1]](yy[3], k) if flip else _CMP[c[1]](k, yy[3])
+    return None
+
+
+def _defs(G):
     defs = {}
-    for blk in G.blocks:
+    for i, blk in enumerate(G.blocks):
         for s in blk["stmts"]:
             if s["k"] == "assign" and not s["place"]["p"]:
-                defs.setdefault(s["place"]["l"], []).append(s["rv"])
-    out = []
-    for a in t["args"]:
-        if a["k"] not in ("copy", "move") or a["place"]["p"] or G.locals[a["place"]["l"]]["s"] != "bool":
-            continue
-        l = a["place"]["l"]
-        n = 0
-        while not G.locals[l].get("name") and n < 6:
-            ds = defs.get(l, [])
-            if len(ds) == 1 and ds[0]["k"] == "use" and ds[0]["op"]["k"] in ("copy", "move") and not ds[0]["op"]["place"]["p"]:
-                l = ds[0]["op"]["place"]["l"]
-                n += 1
-            else:
-                break
-        out.append(l)
-    return out
+                defs.setdefault(s["place"]["l"], []).append(("stmt", s["rv"]))
+        t = blk["term"]
+        if t["k"] == "call" and t.get("dest") and not t["dest"]["p"]:
+            defs.setdefault(t["dest"]["l"], []).append(("call", t))
+    return defs
+
+
+def _root_local(G, defs, l, depth=0):
+    """Follow single copies / moves / reborrows back to the local (or call) a value comes from."""
+    while depth < 8:
+        ds = defs.get(l, [])
+        if len(ds) != 1:
+            return ("local", l)
+        kind, x = ds[0]
+        if kind == "call":
+            return ("call", x)
+        rv = x
+        if rv["k"] == "use" and rv["op"]["k"] in ("copy", "move") and not rv["op"]["place"]["p"]:
+            l = rv["op"]["place"]["l"]
+        elif rv["k"] in ("ref",) and rv["place"]["p"] in ([], ["deref"]):
+            l = rv["place"]["l"]
+        else:
+            return ("local", l)
+        depth += 1
+    return ("local", l)
+
+
+def _carrier(prog, b):
+    """How a function receives the classification: ("bools", [param indices]) or ("struct", param index, adt, [bool field names])."""
+    tys = [(j, b.locals[j]["s"]) for j in range(1, b.mir["arg_count"] + 1)]
+    bools = [j for j, ty in tys if ty == "bool"]
+    if len(bools) >= 2:
+        return ("bools", bools)
+    for j, ty in tys:
+        t0 = ty.lstrip("&").replace("mut ", "").strip()
+        a = prog.adt(t0)
+        if a is not None and len(a["variants"]) == 1:
+            fs = [f["name"] for f in a["variants"][0]["fields"] if f["ty"] == "bool"]
+            if len(fs) >= 2:
+                return ("struct", j, t0, fs)
+    return None
 
 
 def _set_blocks(G, l):
@@ -103,11 +170,23 @@ def _set_blocks(G, l):
     return out
 
 
-def table(G, flags, paths, trip=0):
+def _set_blocks_field(G, l, field):
+    out = set()
+    for i, blk in enumerate(G.blocks):
+        if blk["cleanup"]:
+            continue
+        for s in blk["stmts"]:
+            if s["k"] == "assign" and s["place"]["l"] == l and any(isinstance(x, dict) and x.get("field") == field for x in s["place"]["p"]) and \
+                    s["rv"]["k"] == "use" and s["rv"]["op"]["k"] == "const" and s["rv"]["op"].get("int") == 1:
+                out.add(i)
+    return out
+
+
+def table(G, setb, paths, trip=0):
     """{(flag position, character): "always" | "never" | "depends"} for the character a scanner looks at on its
     first (trip 0) or second (trip 1) time round the scanning loop."""
     loops = BodyCfg(G).loops()
-    setb = [_set_blocks(G, l) for l in flags]
+    flags = setb
     allset = set().union(*setb) if setb else set()
     heads = [h for h, bl in loops.items() if bl & allset]
     if not heads:
@@ -119,6 +198,7 @@ def table(G, flags, paths, trip=0):
             head = h
     segs = []
     items = {}
+    switch_vals = {}
     for p in paths:
         if head not in p.blocks:
             continue
@@ -161,7 +241,7 @@ def table(G, flags, paths, trip=0):
                 pos2 = k
                 if occ[0] <= k < first and e["k"] == "branch" and isinstance(e["value"], bool):
                     ct = _char_test(e["cond"])
-                    if ct is not None and _CMP[ct[1]](ord("5"), ct[2]) != e["value"]:
+                    if ct is not None and ct[1](ord("5")) != e["value"]:
                         prior_ok = False
                         break
             if not prior_ok:
@@ -170,6 +250,11 @@ def table(G, flags, paths, trip=0):
             ct = _char_test(e["cond"])
             if ct is not None:
                 items[ct[0]] = items.get(ct[0], 0) + 1
+            elif isinstance(e["value"], int) and not isinstance(e["value"], bool):
+                # `match ch { '+' => .. }`: a switch on the character itself
+                x = _unref(e["cond"])
+                items[x] = items.get(x, 0) + 1
+                switch_vals.setdefault(x, set()).add(e["value"])
         segs.append((seg_blocks, evs))
     if not segs or not items:
         return None, "no character tests found on the first trip round the scanning loop"
@@ -177,19 +262,31 @@ def table(G, flags, paths, trip=0):
     item = max(items, key=lambda t: (items[t], -len(repr(t))))
     out = {}
     for name, code in ALPHABET:
-        hits = [[], [], []]
+        hits = [[] for _ in flags]
         for seg_blocks, evs in segs:
             ok = True
             for e in evs:
-                ct = _char_test(e["cond"])
-                if ct is None or ct[0] != item or not isinstance(e["value"], bool):
+                v = e["value"]
+                if isinstance(v, bool) and _index_test(e["cond"]) is not None and _index_test(e["cond"]) != v:
+                    ok = False           # `i == 0` taken the wrong way for this trip round an enumerate() loop
+                    break
+                if not isinstance(v, bool) and _unref(e["cond"]) == item:
+                    if isinstance(v, int) and code != v:
+                        ok = False
+                        break
+                    if v == "otherwise" and code in switch_vals.get(item, ()):
+                        ok = False
+                        break
                     continue
-                if _CMP[ct[1]](code, ct[2]) != e["value"]:
+                ct = _char_test(e["cond"])
+                if ct is None or ct[0] != item or not isinstance(v, bool):
+                    continue
+                if ct[1](code) != v:
                     ok = False
                     break
             if not ok:
                 continue
-            if not any((_char_test(e["cond"]) or (None,))[0] == item for e in evs):
+            if not any((_char_test(e["cond"]) or (None,))[0] == item or _unref(e["cond"]) == item for e in evs):
                 continue            # a trip that looks at no character (empty text, loop not entered)
             for k in range(len(flags)):
                 hits[k].append(bool(set(seg_blocks) & setb[k]))
@@ -208,34 +305,76 @@ def table(G, flags, paths, trip=0):
 def run(ctx):
     prog = ctx.prog
     bodies = [b for b in prog.lib_bodies() if b.kind in ("Fn", "AssocFn")]
-    # ---- R1: the constructor and its callers -----------------------------------------------------------------------------
+    by_path = {b.path: b for b in bodies}
+    # ---- R1: the constructor, the functions that only pass the classification on, and the scanners that compute it --------
     cands = {}
-    for g in bodies:
-        for i, t in g.calls():
-            nm = t["callee"].get("resolved") or t["callee"].get("path") or ""
-            kb = next((b for b in bodies if b.path == nm), None)
-            if kb is None:
-                continue
-            tys = [kb.locals[j]["s"] for j in range(1, kb.mir["arg_count"] + 1)]
-            if tys.count("bool") >= 2 and any(x in ("&str", "std::string::String", "&std::string::String") for x in tys) and \
-                    "unifiable::Unifiable" in kb.locals[0]["s"]:
-                cands.setdefault(kb.path, []).append((g, i, t))
+    for b in bodies:
+        car = _carrier(prog, b)
+        tys = [b.locals[j]["s"] for j in range(1, b.mir["arg_count"] + 1)]
+        if car is not None and any(x in ("&str", "std::string::String", "&std::string::String") for x in tys) and \
+                "unifiable::Unifiable" in b.locals[0]["s"]:
+            cands[b.path] = car
     if not cands:
         ctx.missing("R1", "term constructor taking a text and classification flags")
         return
-    K = max(cands, key=lambda k: len(cands[k]))
-    KB = next(b for b in bodies if b.path == K)
+    scanners = {}            # path -> (body, kind, flag handles)   handles: bool locals, or (struct local, [fields])
+    forwards = set()
+    for g in bodies:
+        defs = None
+        for i, t in g.calls():
+            nm = t["callee"].get("resolved") or t["callee"].get("path") or ""
+            car = cands.get(nm)
+            if car is None:
+                continue
+            defs = defs or _defs(g)
+            if car[0] == "bools":
+                roots = []
+                for j in car[1]:
+                    a = t["args"][j - 1]
+                    if a["k"] == "const":
+                        roots.append(("const", a.get("int")))
+                    elif a["k"] in ("copy", "move") and not a["place"]["p"]:
+                        roots.append(_root_local(g, defs, a["place"]["l"]))
+                    else:
+                        roots.append(("other",))
+                if all(r[0] == "local" and 1 <= r[1] <= g.mir["arg_count"] for r in roots) and g.path in cands:
+                    forwards.add(g.path)
+                    continue
+                if all(r[0] == "local" for r in roots):
+                    scanners.setdefault(g.path, (g, "bools", [r[1] for r in roots], [by_path[nm].locals[j].get("name") or "flag%d" % k
+                                                                                   for k, j in enumerate(car[1])]))
+            else:
+                a = t["args"][car[1] - 1]
+                if a["k"] not in ("copy", "move") or a["place"]["p"]:
+                    continue
+                r = _root_local(g, defs, a["place"]["l"])
+                if r[0] == "local" and 1 <= r[1] <= g.mir["arg_count"] and g.path in cands:
+                    forwards.add(g.path)
+                    continue
+                if r[0] == "call":
+                    hn = r[1]["callee"].get("resolved") or r[1]["callee"].get("path") or ""
+                    H = by_path.get(hn)
+                    if H is not None and car[2] in H.locals[0]["s"]:
+                        hl = next((l for l in range(H.mir["arg_count"] + 1, len(H.locals)) if H.locals[l]["s"] == car[2] and H.locals[l].get("name")), None)
+                        if hl is not None:
+                            scanners.setdefault(H.path, (H, "struct", (hl, car[3]), car[3]))
+                        continue
+                if r[0] == "local":
+                    scanners.setdefault(g.path, (g, "struct", (r[1], car[3]), car[3]))
+    sinks = [k for k in cands if k not in forwards]
+    if not sinks:
+        ctx.missing("R1", "term constructor (every candidate passes its flags on)")
+        return
+    K = sinks[0]
+    KB = by_path[K]
     ctx.fn(KB)
-    sites = cands[K]
-    scanners = {}
-    for g, i, t in sites:
-        scanners.setdefault(g.path, (g, []))[1].append((i, t))
-    ctx.ob("R1", "constructor", True, ctx.where(KB), "%s is called with a classification from %d scanner(s): %s" % (
-        KB.npath, len(scanners), sorted(x.split("::")[-1] for x in scanners)))
+    ctx.ob("R1", "constructor", True, ctx.where(KB), "%s receives a classification computed by %d scanner(s): %s%s" % (
+        KB.npath, len(scanners), sorted(x.split("::")[-1] for x in scanners),
+        ("; passed on unchanged by %s" % sorted(x.split("::")[-1] for x in forwards)) if forwards else ""))
     ctx.floor("R1", len(scanners), 2, "scanners that classify a text for the term constructor")
     # ---- R2: tables ------------------------------------------------------------------------------------------------------
     tables, flag_names = {}, {}
-    for gp, (g, ss) in sorted(scanners.items()):
+    for gp, (g, kind, handles, names) in sorted(scanners.items()):
         ctx.fn(g)
         try:
             paths = Walker(g, max_visits=3, max_paths=600000).paths()
@@ -243,13 +382,12 @@ def run(ctx):
             ctx.ob("R2", "table(%s)" % g.npath, False, ctx.where(g), "too many paths")
             continue
         ctx.stats["paths_walked"] += len(paths)
-        flags = _flag_locals(g, ss[0][1])
-        # all call sites of one scanner must hand over the same flag variables
-        if any(_flag_locals(g, t) != flags for i, t in ss[1:]):
-            ctx.ob("R2", "table(%s)" % g.npath, False, ctx.where(g), "the scanner's call sites hand different variables to the constructor")
-            continue
-        tb, why = table(g, flags, paths, 0)
-        tb2, why2 = table(g, flags, paths, 1)
+        if kind == "bools":
+            setb = [_set_blocks(g, l) for l in handles]
+        else:
+            setb = [_set_blocks_field(g, handles[0], f) for f in handles[1]]
+        tb, why = table(g, setb, paths, 0)
+        tb2, why2 = table(g, setb, paths, 1)
         if tb is None or tb2 is None:
             ctx.ob("R2", "table(%s)" % g.npath, False, ctx.where(g), why or why2)
             continue
@@ -257,8 +395,9 @@ def run(ctx):
         for (k, ch), v in tb2.items():
             tb[(k, "later:" + ch)] = v
         tables[gp] = tb
-        flag_names[gp] = [g.locals[l].get("name") or "flag%d" % k for k, l in enumerate(flags)]
-        ctx.ob("R2", "table(%s)" % g.npath, True, ctx.where(g), "classification table read for %d characters x %d flags, at the first and at a later position" % (len(ALPHABET), len(flags)))
+        flag_names[gp] = list(names)
+        ctx.ob("R2", "table(%s)" % g.npath, True, ctx.where(g),
+               "classification table read for %d characters x %d flags, at the first and at a later position" % (len(ALPHABET), len(names)))
     ctx.extra["classification_tables"] = {gp.split("::")[-1]: {"%s:%s" % (flag_names[gp][k], ch): v for (k, ch), v in sorted(tb.items())}
                                           for gp, tb in tables.items()}
     gps = sorted(tables)
@@ -269,26 +408,31 @@ def run(ctx):
                 w = tables[other].get((k, ch))
                 nm = flag_names[ref][k] if k < len(flag_names[ref]) else "flag%d" % k
                 g_other = scanners[other][0]
-                ctx.ob("R2", "agree(%r,%s)" % (ch, nm), v == w, ctx.where(g_other),
+                # at a later position "depends" can mean "depends on the characters before", which this abstraction does not
+                # follow: only definite disagreements (always against never) are reported there
+                same = (v == w) or (ch.startswith("later:") and "depends" in (v, w))
+                ctx.ob("R2", "agree(%r,%s)" % (ch, nm), same, ctx.where(g_other),
                        ("a character %r (%s) sets `%s` %s in %s but %s in %s: the same text is classified differently depending on "
                         "where it is written" % (ch.split(":")[-1], "not the first of the text" if ch.startswith("later:") else "first of the text",
-                                                 nm, v, ref.split("::")[-1], w, other.split("::")[-1])) if v != w else
+                                                 nm, v, ref.split("::")[-1], w, other.split("::")[-1])) if not same else
                        "%r: `%s` %s in both scanners" % (ch, nm, v))
     # ---- R3: number conversion only in the constructor -------------------------------------------------------------------
     bad = None
     n = 0
+    fam = {K} | {h.path for h in prog.private_callees(KB)}
     for g in bodies:
         for i, t in g.calls():
             pa = t["callee"].get("path_args") or ""
             if "str>::parse::<i64>" in pa or "str>::parse::<f64>" in pa:
-                # only conversions that end up in a number *term*
                 makes_number = any(s_["k"] == "assign" and s_["rv"]["k"] == "aggregate" and s_["rv"].get("variant") in ("SInteger", "SFloat")
-                                   for blk in g.blocks for s_ in blk["stmts"])
+                                   for blk in g.blocks for s_ in blk["stmts"]) or \
+                    any(str(a_.get("repr", "")).endswith(("::SInteger", "::SFloat")) for blk in g.blocks if blk["term"]["k"] == "call"
+                        for a_ in blk["term"]["args"] if a_["k"] == "const")          # `.map(SInteger)`: the variant used as a function
                 if not makes_number:
                     continue
                 n += 1
-                if g.path != K and g.path not in {h.path for h in prog.private_callees(KB)}:
+                if g.path not in fam:
                     bad = (g, t)
     ctx.ob("R3", "numbers-converted-in-constructor-only", bad is None and n > 0, ctx.where(bad[0], bad[1]["line"]) if bad else ctx.where(KB),
            ("%s converts a text to a number outside the term constructor" % bad[0].npath) if bad else
-           "%d `str::parse::<i64|f64>` call(s), all inside %s" % (n, KB.npath))
+           "%d `str::parse::<i64|f64>` call(s), all inside %s (and its private helpers)" % (n, KB.npath))
